@@ -37,7 +37,7 @@ Theorem c19_visit_hangs_refuted :
   forall a, enabled_b s a = true -> a = AFlush.
 Proof.
   vm_compute. repeat split; auto.
-  intros a. destruct a as [| | | | | |w|w|w|w]; try discriminate; auto;
+  intros a. destruct a as [| | | | | |w|w|w|w|w]; try discriminate; auto;
     destruct w as [|w]; try discriminate; destruct w; discriminate.
 Qed.
 Print Assumptions c19_visit_hangs_refuted.
